@@ -30,12 +30,30 @@ EXTENDS Linepart
 
 CONSTANTS Kinds,      \* transform kinds explored
           Alphabet2,  \* positions explored in the second dimension
+          HalfLimits, \* TRUE: the limits of a log dimension are also given as non-integral exponents
           Uneven      \* "same": dimensions of equal length; "any": the second dimension has any length up to MaxLen;
                       \* "short": a second dimension of one or two values
 
-VARIABLE kind         \* <<k1>> or <<k1, k2>>
+VARIABLE kind,        \* <<k1>> or <<k1, k2>>
+         lim2         \* <<2 * lower, 2 * upper limit exponent>> as given to a logarithmic dimension
 
-varsT == <<vars, kind>>
+varsT == <<vars, kind, lim2>>
+
+(* A logarithmic dimension rounds its limits outward to whole decades       *)
+(* (transform3::part: 10^floor(min) .. 10^ceil(max)): the visible range     *)
+(* [lo, hi] in positions is that of the given limit exponents lim2 / 2.     *)
+(* kind "log2" (all dimensions of the run): positions and lo, hi count half *)
+(* decades; an even position P is the value 10^(P/2), an odd one a value    *)
+(* strictly between the decades (3 * 10^((P-1)/2)): its classification and  *)
+(* ordering are decided, its exact position (crossing fractions, device     *)
+(* coordinate) is not.                                                      *)
+Half == \E d \in 1..Len(kind) : kind[d] = "log2"
+FloorHalf(x) == x \div 2
+CeilHalf(x)  == -((-x) \div 2)
+LimitsOK ==
+  IF Half THEN /\ \A d \in 1..Len(kind) : kind[d] = "log2"
+               /\ lo = 2 * FloorHalf(lim2[1]) /\ hi = 2 * CeilHalf(lim2[2])
+  ELSE lo = FloorHalf(lim2[1]) /\ hi = CeilHalf(lim2[2])
 
 ND == Len(kind)      \* number of dimensions of the current run
 Zero == -1048576      \* position of the value 0 under log
@@ -52,7 +70,8 @@ Dat(d) == IF d = 1 THEN data ELSE data2
 (* device coordinate (exact integer) of the position L in dimension d      *)
 DevA(d) == IF kind[d] = "lin-" THEN -d ELSE d
 DevB(d) == IF kind[d] = "lin-" THEN d * hi ELSE -(d * lo)
-Dev(d, L) == DevA(d) * L + DevB(d)
+Dev(d, L) == IF kind[d] = "log2" THEN d * ((L - lo) \div 2)       \* even positions only
+             ELSE DevA(d) * L + DevB(d)
 
 ---------------------------------------------------------------------------
 (* Tier 1 *)
@@ -60,10 +79,12 @@ VisT(i) == /\ i <= Pfx
            /\ InR(data[i])
            /\ ND = 2 => InR(data2[i])
 
-NoPosition(o) == NonPos(data[o]) \/ (ND = 2 /\ NonPos(data2[o]))
+Between(d, x) == kind[d] = "log2" /\ ~NonPos(x) /\ x % 2 = 1     \* a value between the decades
+NoPosition(o) == \/ NonPos(data[o]) \/ Between(1, data[o])
+                 \/ (ND = 2 /\ (NonPos(data2[o]) \/ Between(2, data2[o])))
 
 CrossTOK(c, o, i) ==     \* o: outside line end, i: its neighbour on the line (both inside the common prefix)
-  \/ NoPosition(o)
+  \/ NoPosition(o) \/ NoPosition(i)
   \/ IF ND = 2 THEN Cross2OK(c, o, i)
      ELSE InR(data[i]) /\ CodeNear(c, CrossA(data[o], data[i]), CrossB(data[o], data[i]))
 
@@ -103,7 +124,7 @@ EndOKT(p, e, first) ==     \* e = <<known, x, y>> of the first / last line point
       i == IF first THEN p.s + 2 ELSE p.s + p.usr - 1
       c == IF first THEN p.cut ELSE p.trim
   IN (e[1] = 1 /\ p.usr > 0 /\ p.s + p.usr <= Pfx) =>
-       IF c = 0 THEN e[2] = 65536 * DevPt(o)[1] /\ e[3] = 65536 * DevPt(o)[2]
+       IF c = 0 THEN NoPosition(o) \/ (e[2] = 65536 * DevPt(o)[1] /\ e[3] = 65536 * DevPt(o)[2])
        ELSE NoPosition(o) \/ NoPosition(i) \/
             /\ OnSegment(e[2], 1, o, i, c)
             /\ ND = 2 => OnSegment(e[3], 2, o, i, c)
@@ -112,7 +133,7 @@ EndOKT(p, e, first) ==     \* e = <<known, x, y>> of the first / last line point
 DevOK(p, pts, ends) ==
   LET a == p.s + 1 + (IF p.cut # 0 THEN 1 ELSE 0) IN
   /\ Len(pts) = NDrawn(p)
-  /\ \A k \in 1..Len(pts) : (a + k - 1 <= Pfx) => pts[k] = DevPt(a + k - 1)
+  /\ \A k \in 1..Len(pts) : (a + k - 1 <= Pfx /\ ~NoPosition(a + k - 1)) => pts[k] = DevPt(a + k - 1)
   /\ EndOKT(p, <<ends[1], ends[2], ends[3]>>, TRUE)
   /\ EndOKT(p, <<ends[4], ends[5], ends[6]>>, FALSE)
 
@@ -184,18 +205,18 @@ TApply(ps) ==      \* fresh linepart::array, apply() per dimension with the grap
   /\ parts' = ps
   /\ pos' = SumRaw(ps)
   /\ obs' = [a |-> "tapply", arg |-> [x |-> 0], exp |-> [parts |-> ProjL(ps)]]
-  /\ UNCHANGED <<data, data2, lo, hi, ranged, kind>>
+  /\ UNCHANGED <<data, data2, lo, hi, ranged, kind, lim2>>
 
 TPoly(ret, ps, pts, ends) ==   \* polyline::set with the graph transform, walk over its parts
   /\ parts' = ps
   /\ pos' = SumRaw(ps)
   /\ obs' = [a |-> "tpoly", arg |-> [x |-> 0],
              exp |-> [ret |-> ret, parts |-> ProjL(ps), pts |-> pts, ends |-> ends, full |-> 1]]
-  /\ UNCHANGED <<data, data2, lo, hi, ranged, kind>>
+  /\ UNCHANGED <<data, data2, lo, hi, ranged, kind, lim2>>
 
 InitObsT == [a |-> "init",
              arg |-> [data |-> data, data2 |-> data2, lo |-> lo, hi |-> hi, ranged |-> Flag(ranged), lim |-> Limit,
-                      kind |-> kind],
+                      kind |-> kind, lmin2 |-> lim2[1], lmax2 |-> lim2[2]],
              exp |-> [x |-> 0]]
 
 AlphaOf(k) == IF k = "log" /\ ranged THEN Alphabet \cup {Zero, Neg} ELSE Alphabet
@@ -205,6 +226,9 @@ InitT ==
   /\ \E r \in Ranges : lo = r[1] /\ hi = r[2]
   /\ ranged \in BOOLEAN
   /\ kind \in [1..Dims -> Kinds]
+  /\ lim2 \in IF HalfLimits /\ ranged /\ (\E d \in 1..Dims : kind[d] = "log")
+              THEN {<<2 * lo, 2 * hi>>, <<2 * lo + 1, 2 * hi - 1>>, <<2 * lo + 1, 2 * hi>>}
+              ELSE {<<2 * lo, 2 * hi>>}
   /\ data \in UNION {[1..k -> AlphaOf(kind[1])] : k \in 1..MaxLen}
   /\ data2 \in IF Dims = 2
                THEN IF Uneven = "short" THEN {<<2>>, <<2, 2>>, <<2, 4>>}      \* a short second dimension under long first ones
@@ -224,7 +248,7 @@ SpecT == InitT /\ [][NextT]_varsT
 
 ---------------------------------------------------------------------------
 (* invariants: the meaning holds of everything the design produces *)
-TypeOKT    == /\ kind \in [1..Dims -> Kinds] /\ pos \in 0..Tot
+TypeOKT    == /\ kind \in [1..Dims -> Kinds] /\ pos \in 0..Tot /\ LimitsOK
               /\ \A i \in 1..Len(parts) : parts[i].raw \in 0..Limit /\ parts[i].usr \in 0..Limit
                                            /\ parts[i].cut \in 0..65535 /\ parts[i].trim \in 0..65535
 PartsOKT   == \A i \in 1..Len(parts) : PartOKT(parts[i])
